@@ -1,0 +1,72 @@
+//go:build verif
+
+package sliceiterator
+
+// Machine-checked contracts for govc (the VC generator in /verif/govc).
+// This file contains comments only; it is compiled into nothing.
+//
+//@ spec func IterOK(a *Iterator) bool = a != nil && a.data != nil && 0 - 1 <= a.idx && a.idx <= len(*a.data)
+
+//@ func New
+//@   props C19 C03
+//@   modifies
+//@   ensures new.fresh {C19,C03}: fresh(result) && result.data == s && result.idx == 0 - 1
+
+//@ func (*Iterator).Next
+//@   props C19 C03 C04
+//@   requires IterOK(a)
+//@   modifies a.idx
+//@   ensures next.idx: a.idx == ite(old(a.idx) < len(*a.data), old(a.idx) + 1, old(a.idx))
+//@   ensures next.result: result == (a.idx < len(*a.data))
+//@   ensures next.ok: IterOK(a)
+
+//@ func (*Iterator).ExistsNext
+//@   props C19 C02
+//@   requires IterOK(a)
+//@   modifies
+//@   ensures result == (a.idx + 1 < len(*a.data))
+
+//@ func (*Iterator).Value
+//@   props C19 C01 C03
+//@   requires IterOK(a) && a.idx >= 0
+//@   modifies
+//@   ensures value.in: a.idx < len(*a.data) ==> result == (*a.data)[a.idx]
+//@   ensures value.end: a.idx >= len(*a.data) ==> result == ""
+
+//@ func (*Iterator).PeekNextValue
+//@   props C19 C02 C04
+//@   requires IterOK(a)
+//@   modifies
+//@   ensures a.idx + 1 < len(*a.data) ==> result0 == (*a.data)[a.idx + 1] && result1
+//@   ensures a.idx + 1 >= len(*a.data) ==> result0 == "" && !result1
+
+//@ func (*Iterator).IsLast
+//@   props C19 C17
+//@   requires IterOK(a)
+//@   modifies
+//@   ensures result == (a.idx == len(*a.data) - 1)
+
+//@ func (*Iterator).Index
+//@   props C19
+//@   requires a != nil
+//@   modifies
+//@   ensures result == a.idx
+
+//@ func (*Iterator).Size
+//@   props C19
+//@   requires a != nil && a.data != nil
+//@   modifies
+//@   ensures result == len(*a.data)
+
+//@ func (*Iterator).Reset
+//@   props C19
+//@   requires a != nil
+//@   modifies a.idx
+//@   ensures a.idx == 0 - 1
+
+//@ func (*Iterator).Remaining
+//@   props C19
+//@   requires IterOK(a) && a.idx >= 0
+//@   modifies
+//@   ensures a.idx >= len(*a.data) ==> len(result) == 0
+//@   ensures a.idx < len(*a.data) ==> len(result) == len(*a.data) - a.idx && (forall k int :: 0 <= k && k < len(result) ==> result[k] == (*a.data)[a.idx + k])
